@@ -54,6 +54,7 @@ class Frame:
 
 
 CONCRETE_SCALARS = (type(None), bool, int, float, str, bytes)
+_NOT_CONCRETE = object()
 MAX_DEPTH = 40
 
 
@@ -413,6 +414,31 @@ class Interp:
                 return self.to_z(a if isinstance(a, Z) else b) == self.to_z(other)
         raise Unsupported(f"is: {a!r} {b!r}")
 
+    def concrete_value(self, v):
+        """The Python value of an executor value built from constants only (else _NOT_CONCRETE)."""
+        if isinstance(v, C):
+            return v.v if isinstance(v.v, (type(None), bool, int, float, str, list, tuple, dict)) else _NOT_CONCRETE
+        if isinstance(v, (LList, LTuple)):
+            items = getattr(v, "items", None)
+            if items is None or (isinstance(v, LList) and not v.concrete):
+                return _NOT_CONCRETE
+            out = [self.concrete_value(i) for i in items]
+            if any(o is _NOT_CONCRETE for o in out):
+                return _NOT_CONCRETE
+            return out if isinstance(v, LList) else tuple(out)
+        if isinstance(v, LDict):
+            out = {}
+            for k, x in v.pairs:
+                kk, xx = self.concrete_value(k), self.concrete_value(x)
+                if kk is _NOT_CONCRETE or xx is _NOT_CONCRETE:
+                    return _NOT_CONCRETE
+                try:
+                    out[kk] = xx
+                except TypeError:
+                    return _NOT_CONCRETE
+            return out
+        return _NOT_CONCRETE
+
     def py_eq(self, a, b):
         """Python == as bool / z3 Bool; dispatches to __eq__ of program classes."""
         for x, y in ((a, b), (b, a)):
@@ -424,6 +450,10 @@ class Interp:
                 return x is y
         if isinstance(a, C) and isinstance(b, C):
             return a.v == b.v
+        if isinstance(a, (C, LList, LTuple, LDict)) and isinstance(b, (C, LList, LTuple, LDict)):
+            ca, cb = self.concrete_value(a), self.concrete_value(b)
+            if ca is not _NOT_CONCRETE and cb is not _NOT_CONCRETE:
+                return ca == cb                    # containers made of constants only: Python's own ==
         if isinstance(a, ZInt) or isinstance(b, ZInt):
             x, y = self.as_int(a), self.as_int(b)
             if x is not None and y is not None:
